@@ -194,6 +194,10 @@ class Int(int):
   def __repr__(self): return f'Int({int(self)})'
 
 
+class IntK(int):
+  """A user subclass of int (used as a dict key; it prints as the number)."""
+
+
 class Str(str):
   def __repr__(self): return f'Str({str.__str__(self)!r})'
 
@@ -221,7 +225,7 @@ PRIMS = (type(None), bool, int, float, str)
 
 # What the current case draws from (set by run_case): special leaves, the
 # probability of one per leaf, and whether unusual dict keys are drawn.
-CASE = {'palette': [], 'p': 0.0, 'xkeys': False}
+CASE = {'palette': [], 'p': 0.0, 'xkeys': None}
 
 
 def leaf_family(v):
@@ -265,7 +269,7 @@ def leaf(rng):
 def draw_case_alphabet(rng):
   """Half of the cases use JSON primitives only; the others add special leaves
   of ONE hostile-equality family and / or subclass-of-primitive leaves."""
-  CASE.update(palette=[], p=0.0, xkeys=rng.random() < 0.3)
+  CASE.update(palette=[], p=0.0, xkeys=rng.choice(sorted(XKEYS)) if rng.random() < 0.3 else None)
   r = rng.random()
   if r < 0.5:
     return
@@ -279,11 +283,12 @@ def draw_case_alphabet(rng):
   CASE.update(palette=pal, p=rng.choice([0.1, 0.2, 0.35]))
 
 
-# UNUSUAL KEYS (30% of the cases): a symbolic dict admits str and int keys, hence
+# UNUSUAL KEYS (30% of the cases, one class per case): a symbolic dict admits str and int keys, hence
 # also instances of int subclasses (bool, IntEnum members, user classes), and
 # ANY str: the empty one and strings that look like broken key paths.
 PATH_SYNTAX_KEYS = ['', 'a[', ']', '[', 'a]b', 'x[0', '[0', '$']
-INT_SUBCLASS_KEYS = [True, False, True, False, Color.RED, Color.GREEN, Int(3), Int(12)]
+XKEYS = {'path-syntax-key': PATH_SYNTAX_KEYS, 'bool-key': [True, False],
+         'int-subclass-key': [Color.RED, Color.GREEN, IntK(3), IntK(12)]}
 
 
 def key_family(k):
@@ -297,7 +302,7 @@ def key_family(k):
 
 
 def xkey(rng):
-  return rng.choice(PATH_SYNTAX_KEYS if rng.random() < 0.5 else INT_SUBCLASS_KEYS)
+  return rng.choice(XKEYS[CASE['xkeys']])
 
 
 def keygen(rng):
@@ -317,9 +322,13 @@ def vary_key(rng, k):
   negative ints, digit-only strings and (in cases with unusual keys) to int
   subclass instances and path-syntax strings."""
   if CASE['xkeys'] and rng.random() < 0.12:
-    if isinstance(k, int) and not isinstance(k, bool):
-      return rng.choice([Int(k), bool(k)] + ([Color(k)] if k in (1, 2, 7) else []))
-    return rng.choice(PATH_SYNTAX_KEYS)
+    if CASE['xkeys'] == 'path-syntax-key':
+      if isinstance(k, str):
+        return rng.choice(PATH_SYNTAX_KEYS)
+    elif isinstance(k, int) and not isinstance(k, bool):
+      if CASE['xkeys'] == 'bool-key':
+        return bool(k)
+      return rng.choice([IntK(k)] + ([Color(k)] if k in (1, 2, 7) else []))
   if isinstance(k, int) and not isinstance(k, bool):
     r = rng.random()
     if r < 0.3:
@@ -551,6 +560,15 @@ def walk_leaves(m):
 
 def has_hostile(m):
   return any(is_hostile(v) for v in walk_leaves(m))
+
+
+def eq_of_containers_decides(m):
+  """True when a search by value in the list `m` (in, count, index, remove) is
+  decided by how a member CONTAINER answers == with / about a leaf that claims
+  to be equal to everything or raises: not list semantics, left open."""
+  return (any(isinstance(x, (dict, list)) for x in m) and
+          any(leaf_family(v) in ('permissive-eq-leaf', 'raising-eq-leaf')
+              for v in walk_leaves(m)))
 
 
 def json_leaf_same(got, ref):
@@ -1021,7 +1039,7 @@ def written_containers(before, after):
       for k in path:
         old = old[k]
         new = new[k]
-      if type(old) is not type(new) or old != new:
+      if type(old) is not type(new) or not same2(old, new):
         out.append(path)
     except (KeyError, IndexError, TypeError):
       out.append(path)
@@ -1106,6 +1124,9 @@ def gen_step(rng, forest, p_multi=0.0, model=None, p_through=0.0, prefer=()):
     ridx, keys, node = rng.choice(nodes)
     cands = [o for o in O.ops_for(node, ('mutate', 'new')) if o.name in R.MODEL_OPS]
     o = rng.choice(cands)
+    if (CASE['palette'] and isinstance(node, pg.List) and rng.random() < 0.15
+        and any(leaf_family(x) for x in node.sym_values())):
+      o = O.OPS['List.remove']      # searches by value among special leaves
     g = O.GenEnv(rng, Values(forest, (ridx, keys)), forest)
     args = o.gen(g, node)
     if args is None:
@@ -1113,6 +1134,20 @@ def gen_step(rng, forest, p_multi=0.0, model=None, p_through=0.0, prefer=()):
     vary_arg_keys(rng, o.name, args)
     add_arg_forms(rng, o.name, args)
     step = {'op': o.name, 'at': [ridx, keys], 'args': args}
+    if o.name == 'List.remove' and 'pos' in args and model is not None:
+      try:
+        mn = model[ridx]
+        for k in keys:
+          mn = mn[k]
+        if eq_of_containers_decides(mn):
+          step = None       # decided by how member containers answer ==: open
+          continue
+        # remove() of a member that is a special leaf (found by identity first)
+        xs = [j for j, x in enumerate(mn) if leaf_family(x)]
+        if xs and rng.random() < 0.6:
+          args['pos'] = rng.choice(xs)
+      except Exception:  # pylint: disable=broad-except
+        pass
     if o.name == 'rebind':
       args['opts'] = {}
       if not rebind_ok(step, node):
@@ -1221,6 +1256,7 @@ def read_checks(ctx, rng, root, m, json_paths=True):
       bad.append(('json-text', f'raised {type(e).__name__}: {e!s:.200}'))
   if isinstance(m, list):
     chk('iter', lambda: [x for x in root], lambda: m)
+    chk('member-identity', lambda: all(x is root[j] for j, x in enumerate(root)), lambda: True)
     chk('list()', lambda: list(root), lambda: m)
     for _ in range(3):
       a, b = rng.randint(-len(m) - 2, len(m) + 2), rng.randint(-len(m) - 2, len(m) + 2)
@@ -1229,7 +1265,12 @@ def read_checks(ctx, rng, root, m, json_paths=True):
       chk('slice', lambda: root[sl], lambda: m[sl], f'{sl}')
     for i in range(-len(m) - 1, len(m) + 1):
       chk('getitem', lambda: root[i], lambda: m[i], f'[{i}]')
-    for p in list(m[:3]) + ['__absent__', 99]:
+    # (How a member CONTAINER answers == with a foreign object that claims to be
+    # equal to everything, or raises, is not list semantics: not probed.)
+    probes = list(m[:3]) + ['__absent__', 99]
+    if eq_of_containers_decides(m):
+      probes = []
+    for p in probes:
       chk('in', lambda: p in root, lambda: p in m, f'{p!r}')
       chk('count', lambda: root.count(p), lambda: m.count(p), f'{p!r}')
       chk('index', lambda: root.index(p), lambda: m.index(p), f'{p!r}')
@@ -1240,6 +1281,12 @@ def read_checks(ctx, rng, root, m, json_paths=True):
     chk('values', lambda: list(root.values()), lambda: list(m.values()))
     chk('items', lambda: [(k, v) for k, v in root.items()],
         lambda: [(k, v) for k, v in m.items()])
+    # get / values / items hand out the stored member itself, as [] does
+    chk('member-identity',
+        lambda: [all(x is root[k] for k, x in root.items()),
+                 all(x is root[k] for k, x in zip(root.keys(), root.values())),
+                 all(root.get(k) is root[k] for k in root.keys())],
+        lambda: [True, True, True])
     for k in list(m.keys())[:4] + ['__absent__', 77]:
       chk('in', lambda: k in root, lambda: k in m, f'{k!r}')
       chk('get', lambda: root.get(k, 'dflt'), lambda: m.get(k, 'dflt'), f'{k!r}')
@@ -1296,7 +1343,7 @@ def member_checks(ctx, rng, root, m, path_reads=3):
       exp = exp[k]
     how = rng.choice(['sym_get', 'sym_get[str]', 'query', 'chained'])
     if how == 'sym_get[str]' and not all(
-        isinstance(k, int) or (isinstance(k, str) and k.isidentifier()) for k in path):
+        type(k) is int or (type(k) is str and k.isidentifier()) for k in path):
       how = 'sym_get'
     c['path_read_checks'] += 1
     try:
@@ -1330,7 +1377,9 @@ def member_checks(ctx, rng, root, m, path_reads=3):
 KEY_STANDIN = {k: 'ps%d_' % i for i, k in enumerate(PATH_SYNTAX_KEYS)}
 
 
-def neutral_leaf(v, fams):
+
+
+def neutral_leaf(v, fams, nested=False):
   f = leaf_family(v)
   if f is None or f not in fams:
     return v
@@ -1351,19 +1400,21 @@ def map_model(m, kf, lf):
     return {kf(k): map_model(v, kf, lf) for k, v in m.items()}
   if isinstance(m, list):
     return [map_model(v, kf, lf) for v in m]
-  return lf(m)
+  return lf(m, False)
 
 
-def map_desc(d, kf, lf):
+def map_desc(d, kf, lf, nested=False):
+  """A description with every key mapped by kf and every leaf by lf(leaf,
+  nested): nested = the leaf sits inside a container of the description."""
   k = d[0]
   if k == 'v':
-    return ['v', lf(d[1])]
+    return ['v', lf(d[1], nested)]
   if k in ('D', 'd'):
-    return [k, [[kf(kk), map_desc(v, kf, lf)] for kk, v in d[1]]] + list(d[2:])
+    return [k, [[kf(kk), map_desc(v, kf, lf, True)] for kk, v in d[1]]] + list(d[2:])
   if k in ('L', 'l'):
-    return [k, [map_desc(v, kf, lf) for v in d[1]]] + list(d[2:])
+    return [k, [map_desc(v, kf, lf, True) for v in d[1]]] + list(d[2:])
   if k == 'ins':
-    return ['ins', map_desc(d[1], kf, lf)]
+    return ['ins', map_desc(d[1], kf, lf, nested)]
   if k == 'node':
     return ['node', d[1], [kf(x) for x in d[2]]]
   return d
@@ -1395,7 +1446,7 @@ def features(before, step=None):
   def kf(k):
     out.add(key_family(k))
     return k
-  def lf(v):
+  def lf(v, nested):
     out.add(leaf_family(v))
     return v
   map_model(before, kf, lf)
@@ -1407,7 +1458,7 @@ def features(before, step=None):
 
 def neutralized(fams, before, step=None):
   kf = lambda k: neutral_key(k, fams)
-  lf = lambda v: neutral_leaf(v, fams)
+  lf = lambda v, nested: neutral_leaf(v, fams, nested)
   return map_model(before, kf, lf), (map_step(step, kf, lf) if step is not None else None)
 
 
@@ -1418,11 +1469,123 @@ def smallest_class(fs, holds):
   for f in fs:
     if holds([f]):
       return f
+  def named(sub):
+    # several classes of subclass-of-primitive leaves together: one name
+    if all(f.endswith('-subclass-leaf') for f in sub):
+      return 'primitive-subclass-leaf'
+    return '+'.join(sub)
   for i, f in enumerate(fs):
     for g in fs[i + 1:]:
       if holds([f, g]):
-        return f + '+' + g
-  return '+'.join(fs)
+        return named([f, g])
+  return named(fs)
+
+
+HOSTILE_FAMILIES = ('permissive-eq-leaf', 'raising-eq-leaf', 'irreflexive-eq-leaf',
+                    'identity-eq-leaf')
+# Path families for a hostile-equality leaf that is stored wrongly: operations
+# that BUILD a new container from members (constructor, copies, +, *, |, the
+# conversion of a container operand) and operations that GROW a list at its
+# end; every other operation is a path of its own.
+NEW_CONTAINER_OPS = ('construction', 'List.copy', 'Dict.copy', 'List.__add__', 'List.__mul__',
+                     'Dict.__or__')
+LIST_GROWTH_OPS = ('List.append', 'List.extend', 'List.__iadd__', 'List.__imul__', 'List.*=')
+
+
+def rebind_appends(step, before):
+  """True when the rebind writes a position past the end of a list."""
+  try:
+    node = before
+    for k in step['at'][1]:
+      node = node[k]
+    for rel, _ in step['args']['updates']:
+      parent = node
+      for k in rel[:-1]:
+        parent = parent[k]
+      if isinstance(parent, list) and isinstance(rel[-1], int) and rel[-1] >= len(parent):
+        return True
+  except Exception:  # pylint: disable=broad-except
+    pass
+  return False
+
+
+def special_mech(op, sp, step=None, before=None):
+  """Mechanism of a disagreement attributed to the class `sp`."""
+  if sp in HOSTILE_FAMILIES:
+    if op in NEW_CONTAINER_OPS:
+      return 'new-container/' + sp
+    if op in LIST_GROWTH_OPS or (op == 'rebind' and rebind_appends(step, before)):
+      return 'list-growth/' + sp
+  return op + '/' + sp
+
+
+def constructs(d):
+  """True when the container description `d` alone becomes a symbolic container
+  with the members of the reference (constructor / conversion of a plain one)."""
+  try:
+    x = build2(d)
+    if not isinstance(x, (pg.List, pg.Dict)):
+      x = pg.List(x) if isinstance(x, list) else pg.Dict(x)
+    return same2(R.to_plain(x), R.build_plain(d, None)) and all_members_symbolic(x)
+  except Exception:  # pylint: disable=broad-except
+    return False
+
+
+def has_node(d):
+  return d[0] == 'node' or (d[0] in ('D', 'd') and any(has_node(v) for _, v in d[1])) or (
+      d[0] in ('L', 'l') and any(has_node(v) for v in d[1])) or (
+          d[0] == 'ins' and has_node(d[1]))
+
+
+def node_operand_family(step, forest):
+  """Same for an operand that is a container living in the tree (it is copied
+  when it is stored a second time): the copy lacks members of the original."""
+  a = step['args']
+  ds = [a[n] for n in ('v', 'default') if n in a] + list(a.get('vs', ()))
+  ds += [v for _, v in a.get('items', ())] + [v for _, v in a.get('updates', ())]
+  for d in ds:
+    if d[0] == 'ins':
+      d = d[1]
+    if d[0] != 'node':
+      continue
+    try:
+      x = D.resolve(forest, d[1], d[2])
+      ref = R.to_plain(x)
+      fams = sorted({leaf_family(v) for v in walk_leaves(ref)} & set(HOSTILE_FAMILIES))
+      if len(fams) != 1:
+        continue
+      try:
+        ok = same2(R.to_plain(x.clone(deep=True)), ref)
+      except Exception:  # pylint: disable=broad-except
+        ok = False
+      if not ok:
+        return fams[0]
+    except Exception:  # pylint: disable=broad-except
+      continue
+  return None
+
+
+def needs_special_operand(step):
+  """The class of special leaf / unusual key because of which a CONTAINER
+  OPERAND of the step cannot even be constructed on its own with the members
+  of the reference (the operation that takes it is immaterial then)."""
+  a = step['args']
+  ds = [a[n] for n in ('v', 'default') if n in a] + list(a.get('vs', ()))
+  ds += [v for _, v in a.get('items', ())] + [v for _, v in a.get('updates', ())]
+  for d in ds:
+    if d[0] == 'ins':
+      d = d[1]
+    if d[0] not in ('D', 'd', 'L', 'l') or has_node(d) or constructs(d):
+      continue
+    fs = set()
+    map_desc(d, lambda k: fs.add(key_family(k)) or k,
+             lambda v, nested: fs.add(leaf_family(v)) or v)
+    fs.discard(None)
+    f = smallest_class(sorted(fs), lambda fams: constructs(map_desc(
+        d, lambda k: neutral_key(k, fams), lambda v, nested: neutral_leaf(v, fams))))
+    if f:
+      return f
+  return None
 
 
 def needs_special(step, before):
@@ -1448,7 +1611,7 @@ def needs_special_read(ctx, m, clause):
 def needs_special_ctor(d0, ctor):
   def holds(fams):
     kf = lambda k: neutral_key(k, fams)
-    lf = lambda v: neutral_leaf(v, fams)
+    lf = lambda v, nested: neutral_leaf(v, fams)
     d2 = map_desc(d0, kf, lf)
     try:
       root, m = build_root(d2, ctor), R.build_plain(d2, None)
@@ -1456,7 +1619,8 @@ def needs_special_ctor(d0, ctor):
     except Exception:  # pylint: disable=broad-except
       return False
   fs = set()
-  map_desc(d0, lambda k: fs.add(key_family(k)) or k, lambda v: fs.add(leaf_family(v)) or v)
+  map_desc(d0, lambda k: fs.add(key_family(k)) or k,
+           lambda v, nested: fs.add(leaf_family(v)) or v)
   fs.discard(None)
   return smallest_class(sorted(fs), holds)
 
@@ -1556,6 +1720,8 @@ def agrees(s2, before):
       return False
     if st == 'raise' and R.error_class(res) != R.error_class(mres):
       return False
+    if st == 'ok' and s2['op'] not in R.RETURNS_SELF and not same2(R.to_plain(res), mres):
+      return False
     return same2(R.to_plain(fresh[0]), m2[0]) and all_members_symbolic(fresh[0])
   except Exception:  # pylint: disable=broad-except
     return False
@@ -1642,7 +1808,7 @@ def run_case(ctx, i):
   c['cases_special_leaves'] += bool(CASE['palette'])
   c['cases_hostile_eq_leaves'] += any(is_hostile(v) for v in CASE['palette'])
   c['cases_subclass_leaves'] += any(not is_hostile(v) for v in CASE['palette'])
-  c['cases_unusual_keys'] += CASE['xkeys']
+  c['cases_unusual_keys'] += bool(CASE['xkeys'])
   d0 = with_forms(rng, initial(rng))
   ctor = gen_ctor(rng, d0)
   table = d0[1] and all(x[0] in 'LlDd' for x in (
@@ -1655,7 +1821,7 @@ def run_case(ctx, i):
   except Exception as e:  # pylint: disable=broad-except
     # list(...) / dict(...) of the same members does not raise.
     f = needs_special_ctor(d0, ctor)
-    ctx.violation('outcome', 'construction' + ('/' + f if f else ''),
+    ctx.violation('outcome', special_mech('construction', f) if f else 'construction',
                   f'the constructor raised {type(e).__name__}: {e!s:.200}', {'initial': shown0})
     return
   c['ctor:' + ctor] += 1
@@ -1665,7 +1831,7 @@ def run_case(ctx, i):
   for clause, detail in read_checks(ctx, rng, forest[0], model[0]):
     if clause == 'contents':
       f = needs_special_ctor(d0, ctor)
-      mech = 'construction' + ('/' + f if f else '')
+      mech = special_mech('construction', f) if f else 'construction'
     else:
       f = needs_special_read(ctx, model[0], clause)
       mech = 'read-path' + ('/' + f if f else '')
@@ -1685,6 +1851,7 @@ def run_case(ctx, i):
     if not heal(ctx, rng, forest, model):
       return
     break
+  fresh = model_containers(model[0])
   n_steps = rng.randint(ctx.params['steps'] // 2, ctx.params['steps'])
   for _ in range(n_steps):
     step = gen_step(rng, forest, p_multi, model, 0.35 if fresh else 0.08, fresh)
@@ -1763,11 +1930,23 @@ def run_case(ctx, i):
       mbad = member_checks(ctx, rng, forest[0], model[0])
     mech = step['op']
     member_mech = {}
-    if problem or mbad or any(cl == 'contents' for cl, _ in bad):
-      sp = needs_special(step, before)
+    if problem and problem[0] == 'result-identity' and not mbad and not any(
+        cl == 'contents' for cl, _ in bad):
+      pass       # (the counterfactual runs below do not look at the identity of a result)
+    elif problem or mbad or any(cl == 'contents' for cl, _ in bad):
+      sp = needs_special_operand(step) or node_operand_family(step, forest)
+      if sp:
+        mech = special_mech('construction', sp)
+      else:
+        sp = needs_special(step, before)
+        if sp:
+          mech = special_mech(step['op'], sp, step, before)
       oc = None if sp else needs_forms(step, before)
       if sp:
-        mech += '/' + sp
+        # (the contents of an operation that wrongly raised are those before it)
+        if (problem and problem[0] == 'outcome' and status == 'raise'
+            and same2(R.to_plain(forest[0]), before)):
+          bad = [(cl, dt) for cl, dt in bad if cl != 'contents']
       elif oc:
         mech += '/' + oc
         # A member that stays plain because of the class of the operand: the
